@@ -73,7 +73,7 @@ func genC20() string {
 	var calls []string
 	for _, c := range callsIn(inst.Body, "parsePluginFromDir", "parsePluginName", "isExecutableFile", "validatePluginName",
 		"NewCLIPlugin", "newPlugin.GetMetadata", "m.Get", "existingPlugin.GetMetadata", "semver.ComparePluginVersion",
-		"isPathWithin", "m.Uninstall", "os.Remove", "os.RemoveAll", "file.CopyToDir", "file.CopyDirToDir", "os.Rename", "os.Mkdir") {
+		"isPathWithin", "setExecutable", "os.Chmod", "m.Uninstall", "os.Remove", "os.RemoveAll", "file.CopyToDir", "file.CopyDirToDir", "os.Rename", "os.Mkdir") {
 		calls = append(calls, callName(c))
 	}
 	// the guard "the source is not inside the plugin's own installation directory": its arguments and
@@ -99,6 +99,9 @@ func genC20() string {
 	fmt.Fprintf(&b, "/-- the guard of `CLIManager.Install` against a source inside the plugin's own directory -/\ndef installWithinGuard : String := %s\n\n", leanStr(within))
 	ipw := mustFunc(man, mf, "", "isPathWithin")
 	fmt.Fprintf(&b, "/-- calls of `isPathWithin` -/\ndef isPathWithinCalls : List String := %s\n\n", leanStrList(callTexts(ipw.Body, "filepath.", "strings.")))
+	// parsePluginFromDir only reads: no chmod / write call in it
+	fmt.Fprintf(&b, "/-- modifying calls in `parsePluginFromDir` (setExecutable, os.Chmod, os.Remove*, os.Write*, os.Create) -/\ndef parseDirWrites : List String := %s\n\n",
+		leanStrList(callTexts(ppd.Body, "setExecutable", "os.Chmod", "os.Remove", "os.Write", "os.Create", "os.Rename", "os.Mkdir")))
 	fmt.Fprintf(&b, "/-- checking / removing / copying calls of `CLIManager.Install`, in source order -/\ndef installCalls : List String := %s\n\n", leanStrList(calls))
 	un := mustFunc(man, mf, "CLIManager", "Uninstall")
 	var ucalls []string
